@@ -256,7 +256,7 @@ def run(ctx):
     if CORPUS.exists():
         cases += [json.loads(p.read_text()) for p in sorted(CORPUS.glob("*.json"))]
     ncorp = len(cases)
-    cases += [gen_case(ctx.rng, i) for i in range(ctx.n(60, 1500))]
+    cases += [gen_case(ctx.rng, i) for i in range(ctx.n(100, 1500))]
     for ci, case in enumerate(cases):
         ok = run_case(ctx, case)
         sig = (case["kind"], case.get("spec_by"), json.dumps([(c["kind"], c.get("swb"), c.get("shaft_line")) for c in case["spec"].get("electric", []) + case["spec"].get("mechanical", [])]))
